@@ -10,25 +10,29 @@ MANIFEST = {
                      "against the real Buffer.hpp (ASan/UBSan harness) + independent Python byte-queue oracle on every run",
         "text": "Proved in Lean (lean/Nstd/Buffer/Props.lean) for ALL operation lists over any number of Buffer variables and any "
                 "attachable regions, no bound on sizes/offsets/history length: no_fault (well-formed histories never access memory "
-                "outside the object's own allocation or the attached range, never store into attached memory, never read a freed block), "
+                "outside the object's own allocation or the attached range, never store into attached memory, never touch a block after its "
+                "delete[] and never delete[] a block twice - ledger_faults/delete_removes say that the model treats these as faults), "
                 "terminator_zero (in every reachable state an owning Buffer has a readable 0 byte right after its data), refines (the exposed "
                 "bytes of every variable match the byte-queue spec of Spec.lean; bytes newly exposed by a growing resize are unspecified), "
-                "attached_untouched (regions are unchanged), att_store_faults, buffer_correct (all of it at once).  The model follows "
-                "Buffer.hpp method by method and branch by branch (constructors, attach, operator=, assign, both prepend/append overloads "
-                "incl. a.prepend(a)/a.append(a)/a=a and a.prepend(pointer into a's own bytes), resize, reserve, removeFront/Back, clear, swap, free).  The model is tied to the current "
-                "Buffer.hpp on every run: identical op lines are executed by a harness built from the current sources (fresh memory "
-                "poisoned, attached ranges and data arguments handed out as exactly sized heap blocks so that ASan sees any access outside "
-                "them, attached blocks compared with their source after every op) and by the compiled model; size, bytes, ownership flag, the "
-                "byte after the data and the region contents are compared after every operation, `state` lines additionally compare "
-                "_capacity, head-room and where the pointers point (the branch-selecting state), and an independent Python reference queue "
-                "is evaluated on the implementation's output.  Evidence lists how often every branch of Buffer.hpp was taken.",
+                "attached_untouched (regions are unchanged), att_store_faults, compare_no_fault, no_leak (every live allocation is the buffer "
+                "of a variable), owned_blocks_live_and_exclusive (no dangling buffer pointer, no block owned twice), buffer_correct.  The model "
+                "follows Buffer.hpp method by method and branch by branch with new/delete[]/accesses in the order of the C++ text over an "
+                "allocation ledger (block ids + live set) (constructors, destructor, attach, operator=, assign, both prepend/append overloads "
+                "incl. a.prepend(a)/a.append(a)/a=a and a.prepend(pointer into a's own bytes), resize, reserve, removeFront/Back, clear, swap, "
+                "free).  The model is tied to the current Buffer.hpp on every run: identical op lines are executed by a harness built from the "
+                "current sources (fresh memory poisoned, attached ranges and data arguments handed out as exactly sized heap blocks so that "
+                "ASan sees any access outside them, attached blocks compared with their source after every op) and by the compiled model; "
+                "size, bytes, ownership flag, the byte after the data and the region contents are compared after every operation, `state` "
+                "lines compare _capacity, head-room and where the pointers point (the branch-selecting state), `heap` lines the number of "
+                "live allocations, and an independent Python reference (byte queue; live blocks = owning variables) is evaluated on the "
+                "implementation's output.  Evidence lists how often every branch of Buffer.hpp was taken.",
         "note": "Trusted: Lean kernel + propext/Classical.choice/Quot.sound; the hand translation of Buffer.hpp into Model.lean (validated "
                 "by the correspondence run, not proved).  Modelled rather than verified: memory is one checked block per Buffer object held by "
-                "value (every Buffer owns its allocation exclusively), so delete[] bookkeeping is not modelled: double free / use of a stale "
-                "buffer pointer / leaks are caught by ASan+LSan in the harness only, not by the theorems (exception: the read of the just-freed "
-                "block in `a = a` is a model fault and proved absent).  Data arguments passed as (pointer, size) are assumed not to point into "
-                "the object's own block (Buffer arguments may be the object itself - proved).  Allocation never fails; usize arithmetic does not "
-                "wrap (Nat).  operator==/!= , size(), capacity(), isEmpty() are exercised by the correspondence run only.  No theorem is partial.",
+                "value plus the allocation ledger (ids are never reused; the content of a deleted block is simply unreachable).  Data "
+                "arguments passed as (pointer, size) to append/assign are assumed not to point into the object's own block (Buffer arguments may "
+                "be the object itself and prepend may take a sub-range of the own bytes - proved).  Attached memory is not changed by the "
+                "caller while attached.  Allocation never fails; usize arithmetic does not wrap (Nat).  size(), capacity(), isEmpty() are "
+                "exercised by the correspondence run only.  No theorem is partial.",
         "design_ref": "DESIGN.md 3/C08",
     }
 }
@@ -67,8 +71,21 @@ def reference(hist, impl_out):
         op = t[0]
         v = int(t[1]) if len(t) > 1 else 0
         w = int(t[2]) if len(t) > 2 and op in ("copy", "assignb", "prependb", "appendb", "swap", "eq") else 0
-        if op in ("state", "heap"):
+        if op == "state":
             out.append(None)        # white-box line: compared with the model only
+            continue
+        if op == "heap":
+            # no leak / no lost block: exactly the owning variables hold a live allocation (ownership flags are
+            # read off the implementation's last observation)
+            owned = 0
+            for j in range(min(k, len(impl_out)) - 1, -1, -1):
+                if " # " in impl_out[j]:
+                    try:
+                        owned = sum(1 for x in impl_out[j].split(" # ")[0].split(" | ") if x.split(" ")[2] == "1")
+                    except IndexError:
+                        owned = None
+                    break
+            out.append(None if owned is None else f"heap {owned}")
             continue
         if op == "eq":
             # bytes exposed by a growing resize are unspecified: the comparison is determined only if the
@@ -121,6 +138,8 @@ def reference(hist, impl_out):
 
 def ref_eq(impl, ref):
     """impl line `size bytes owned term | ... # regions`  against the reference line"""
+    if impl.startswith("heap") or ref.startswith("heap"):
+        return impl == ref
     if impl.startswith("eq") or ref.startswith("eq"):
         return impl == ref or (ref == "eq ?" and impl in ("eq 0", "eq 1"))
     if impl.startswith("FAULT") or "#" not in impl:
@@ -457,7 +476,7 @@ def histories_for(ctx):
 
 def check(ctx):
     ctx.assumptions += [
-        "memory model of the Lean model: each Buffer holds its allocation / its attached range as a separate checked block; every access is validated against its extent; delete[] is not modelled (double free / stale pointers / leaks: ASan+LSan in the harness only)",
+        "memory model of the Lean model: each Buffer holds its allocation / its attached range as a separate checked block; every access is validated against its extent and, for owned blocks, against the allocation ledger (block ids + live set; new/delete[] in C++ order)",
         "data arguments given by (pointer, size) do not alias the buffer's own storage (Buffer arguments may be the buffer itself: proved)",
         "allocation never fails",
     ]
